@@ -11,6 +11,8 @@ PORTS_LO = [0xFE, 0xFE, 0x1F, 0xFF, 0xFD, 0x7F]
 def w(v):
     return [v & 0xFF, (v >> 8) & 0xFF]
 
+RF = [False]     # "ref friendly": avoid PUSH AF, BIT n,(HL) and block instructions that repeat (see c20.py, refz80-driven recordings)
+
 def blk_in(rng):
     k = rng.randrange(7)
     if k == 0:
@@ -22,16 +24,16 @@ def blk_in(rng):
     if k == 3:
         return [0x21] + w(DATA + rng.randrange(0x400)) + [0x01, 0xFE, rng.randrange(1, 5)] + [0xED, rng.choice([0xA2, 0xAA])]
     if k == 4:
-        return [0x21] + w(DATA + 0x100 + rng.randrange(0x300)) + [0x01, rng.choice(PORTS_LO), rng.randrange(1, 7)] + [0xED, rng.choice([0xB2, 0xBA])]
+        return [0x21] + w(DATA + 0x100 + rng.randrange(0x300)) + [0x01, rng.choice(PORTS_LO), 1 if RF[0] else rng.randrange(1, 7)] + [0xED, rng.choice([0xB2, 0xBA])]
     if k == 5:
         return [0xED, 0x70]                                           # IN F,(C) with whatever BC holds
     return [0xDB, 0xFE, 0xDB, 0xFE, 0xED, 0x78]
 
 def blk_halt(rng):
     k = rng.random()
-    if k < 0.75:
+    if k < 0.8:
         return [0xFB, 0x76]
-    if k < 0.9:
+    if k < 0.97:
         return [0xFB, 0x00, 0x76]
     return [0x76]
 
@@ -39,6 +41,8 @@ def blk_eidi(rng):
     return list(rng.choice([[0xFB], [0xF3], [0xFB, 0xFB], [0xFB, 0xF3], [0xF3, 0xFB], [0xFB, 0x00], [0xFB, 0xED, 0x5F], [0xFB, 0xDD], [0xF3, 0xED, 0x57]]))
 
 def blk_im(rng):
+    if RF[0]:
+        return [0xED, 0x5E]
     return [0xED, rng.choice([0x46, 0x56, 0x5E, 0x56, 0x5E, 0x4E, 0x66, 0x76, 0x7E])]
 
 def blk_prefix(rng):
@@ -65,7 +69,7 @@ def blk_mem(rng):
         return [0x32] + w(DATA + rng.randrange(0x800)) + [0x3A] + w(DATA + rng.randrange(0x800))
     if k == 2:
         return [0xC5, 0xD5, 0xE1, 0xC1]
-    if k == 3:
+    if k == 3 and not RF[0]:
         return [0xF5, 0xC1, 0xC5, 0xF1]                                # PUSH AF / POP BC / PUSH BC / POP AF
     if k == 4:
         return [0xED, 0x43] + w(DATA + 0x700) + [0xED, 0x5B] + w(DATA + 0x700)
@@ -74,7 +78,7 @@ def blk_mem(rng):
 def blk_bit(rng):
     out = []
     for _ in range(rng.randint(1, 3)):
-        out += [0xCB, (rng.randrange(256) & 0xF8) | rng.choice([0, 1, 6, 6, 7])]
+        out += [0xCB, (rng.randrange(256) & 0xF8) | rng.choice([0, 1, 7] if RF[0] else [0, 1, 6, 6, 7])]
     return out
 
 def blk_loop(rng):
@@ -88,7 +92,7 @@ def blk_delay(rng):
     return [0x06, rng.choice([1, 2, 5, 20, 60]), 0x10, 0xFE]
 
 def blk_ldir(rng):
-    return [0x21] + w(DATA + rng.randrange(0x100)) + [0x11] + w(DATA + 0x200 + rng.randrange(0x100)) + [0x01] + w(rng.randint(1, 20)) + [0xED, rng.choice([0xB0, 0xB8, 0xB1, 0xA0])]
+    return [0x21] + w(DATA + rng.randrange(0x100)) + [0x11] + w(DATA + 0x200 + rng.randrange(0x100)) + [0x01] + w(1 if RF[0] else rng.randint(1, 20)) + [0xED, rng.choice([0xB0, 0xB8, 0xB1, 0xA0])]
 
 def blk_border(rng):
     return [0x3E, rng.randrange(256), 0xD3, rng.choice([0xFE, 0xFE, 0xFC, 0x00])]
@@ -112,7 +116,8 @@ def blk_selfmod(rng, slots):
     return [0x3E, rng.choice([0x00, 0x00, 0xFB, 0xF3, 0x3C, 0x76, 0xDD, 0xFD, 0xED]), 0x32] + w(rng.choice(slots))
 
 def isr_im2(rng, counter):
-    code = [0xF5]
+    save = 0x08 if RF[0] else 0xF5              # EX AF,AF' or PUSH AF
+    code = [save]
     if rng.random() < 0.3:
         code += [0xFB]                                                  # early EI: nested interrupts
     if rng.random() < 0.6:
@@ -123,7 +128,7 @@ def isr_im2(rng, counter):
         code += [0xE5, 0x21] + w(counter) + [0x34, 0xE1]
     if rng.random() < 0.3:
         code += [0xED, 0x5F]
-    code += [0xF1]
+    code += [0x08 if RF[0] else 0xF1]
     k = rng.random()
     if k < 0.7:
         code += [0xFB]
@@ -135,7 +140,7 @@ def main_program(rng, org, is128):
     pro = []
     pro += [rng.choice([0xF3, 0xFB, 0x00])]
     if rng.random() < 0.6:
-        pro += [0xED, rng.choice([0x56, 0x5E, 0x5E, 0x46])]
+        pro += [0xED, 0x5E if RF[0] else rng.choice([0x56, 0x5E, 0x5E, 0x46])]
     loop_at = org + len(pro)
     makers = [blk_in] * 5 + [blk_halt] * 3 + [blk_eidi] * 3 + [blk_prefix] * 4 + [blk_ldair] * 3 + [blk_arith] * 4 + [blk_mem] * 3 + [blk_bit] * 2 + \
              [blk_loop] * 2 + [blk_delay] * 2 + [blk_ldir] * 2 + [blk_border] * 2 + [blk_im]
@@ -155,6 +160,8 @@ def main_program(rng, org, is128):
             sub_calls.append(len(body) + 1)
             body += [0xCD, 0, 0]
         else:
+            if rng.random() < 0.3:
+                body += [0xFB]
             body += rng.choice(makers)(rng)
     if rng.random() < 0.8 and 0xFB not in body:
         body += [0xFB]
@@ -165,6 +172,39 @@ def main_program(rng, org, is128):
     for off in sub_calls:
         body[off], body[off + 1] = sub_at & 0xFF, (sub_at >> 8) & 0xFF
     return pro + body + sub
+
+def soup_program(rng, org):
+    """Dense mix of the instructions the frame-boundary rules single out, so that short frames end on all of them."""
+    items = []
+    n = rng.randint(12, 60)
+    while len(items) < n:
+        k = rng.random()
+        if k < 0.22:
+            items.append([0xFB])
+        elif k < 0.32:
+            items.append([0xED, rng.choice([0x5F, 0x5F, 0x57])])
+        elif k < 0.47:
+            items.append(blk_prefix(rng))
+        elif k < 0.52:
+            items.append([0xFB, 0x76])
+        elif k < 0.66:
+            items.append([0xDB, rng.choice(PORTS_LO)])
+        elif k < 0.71:
+            items.append([0xED, 0x40 + 8 * rng.randrange(8)])
+        elif k < 0.85:
+            items.append([rng.choice([0x00, 0x3C, 0x3D, 0x0C, 0x14, 0x87, 0xAF, 0x2F, 0x37])])
+        elif k < 0.88:
+            items.append([0xF3])
+        elif k < 0.91:
+            items.append([0x3E, rng.randrange(256), 0xD3, 0xFE])
+        elif k < 0.93:
+            items.append([0xED, 0x4F])
+        elif k < 0.96:
+            items.append([0x21] + w(DATA + 0x40) + [0x01, 0xFE, 0x03, 0xED, 0xA2])
+        else:
+            items.append(blk_mem(rng))
+    code = [b for it in items for b in it]
+    return code + [0xFB] * (rng.random() < 0.7) + [0xC3] + w(org)
 
 MICRO = [
     [0xFB, 0x76, 0x18, 0xFC],                       # EI; HALT; JR -4
@@ -192,12 +232,15 @@ def background(rng, n):
         return bytearray(rng.randbytes(n))
     return bytearray([rng.choice([0xFF, 0xC9, 0x76, 0x18, 0xDD, 0xFB, 0xDB])]) * n
 
-def gen_case(rng, allow_real=True):
+def gen_case(rng, allow_real=True, ref_friendly=False):
     """-> (state dict in the c09 snapshot layout, meta dict)."""
+    RF[0] = ref_friendly
     is128 = rng.random() < 0.4
-    kind = rng.choices(['main', 'micro', 'random'], [0.6, 0.22, 0.18])[0]
+    kind = rng.choices(['main', 'soup', 'micro', 'random'], [0.4, 0.3, 0.15, 0 if ref_friendly else 0.15])[0]
     img = background(rng, 65536)                      # logical 64K view under the initial paging (ROM part ignored)
     i_page = rng.choice([0xBE, 0xBE, 0xFE, 0x80, 0x5B, 0x3B, 0x00, 0x3F, rng.randrange(256)])
+    if ref_friendly:
+        i_page = rng.choice([0xBE, 0xFE, 0x80, 0x5B])
     handler_b = rng.choice([0xBD, 0xBD, 0xA1, 0x9F])
     handler = handler_b * 257
     if 0x40 <= i_page <= 0xFE:
@@ -205,13 +248,15 @@ def gen_case(rng, allow_real=True):
             img[a] = handler_b
     counter = DATA + 0x7F0
     isr = isr_im2(rng, counter)
+    if kind == 'soup' and rng.random() < 0.6:
+        isr = list(rng.choice([[0xFB, 0xC9], [0xFB, 0xC9], [0xC9], [0x3C, 0xFB, 0xC9], [0xDB, 0xFE, 0xFB, 0xC9], [0xFB, 0xED, 0x4D]]))
     img[handler:handler + len(isr)] = bytes(isr)
     # something sane where a vector read from ROM / stray table lands
     img[0xFFFF] = rng.choice([0xC9, 0xFB, 0x18, 0x00])
     img[0xFFF4:0xFFF4 + 3] = bytes([0xFB, 0xC9, 0x00])
     if kind == 'micro':
         org = rng.choice([0x8000, 0x8000, 0x7FFE, 0x6000, 0xFFFC - 8])
-        code = list(rng.choice(MICRO))
+        code = list(rng.choice([m for m in MICRO if not (ref_friendly and (0xF5 in m or 0xB2 in m))]))
         if org == 0xFFFC - 8 and rng.random() < 0.5:
             # HALT as the very last byte of memory: the PC step at the frame boundary wraps to 0
             code = [0xFB, 0x76]
@@ -219,6 +264,9 @@ def gen_case(rng, allow_real=True):
     elif kind == 'main':
         org = rng.choice([0x8000, 0x8000, 0x6000, 0x7FF0, 0xC000, 0xBFF8, 0x9000])
         code = main_program(rng, org, is128)
+    elif kind == 'soup':
+        org = rng.choice([0x8000, 0x8000, 0x6000, 0x7FF0, 0xC000, 0x9000])
+        code = soup_program(rng, org)
     else:
         org = rng.choice([0x8000, 0x6000, 0xC000, 0x7FF0])
         code = proggen.program_bytes(rng, rng.choice([30, 100, 300]), org)
@@ -230,10 +278,12 @@ def gen_case(rng, allow_real=True):
         'bc': rng.choice([0x00FE, 0x7FFE, 0x05FE, rng.randrange(65536)]), 'de': DATA + 0x300 + rng.randrange(0x100), 'hl': DATA + rng.randrange(0x200),
         'bc2': rng.randrange(65536), 'de2': DATA + 0x500, 'hl2': DATA + 0x600,
         'ix': DATA + 0x180, 'iy': DATA + 0x280, 'sp': sp, 'pc': org, 'i': i_page, 'r': rng.randrange(256),
-        'im': rng.choice([1, 1, 2, 2, 0]), 'border': rng.randrange(8), 'issue2': 0, 'memptr': rng.randrange(65536),
+        'im': rng.choice([1, 2, 2, 2, 2, 0]), 'border': rng.randrange(8), 'issue2': 0, 'memptr': rng.randrange(65536),
         'outfe': rng.randrange(256), 'outfffd': rng.choice([0, 7, 15, 16, rng.randrange(256)]), 'ay': tuple(rng.randrange(256) for _ in range(16)),
     }
     st['iff1'] = st['iff2'] = rng.choice([1, 1, 0])
+    if ref_friendly:
+        st['im'] = 2
     if is128:
         o7 = rng.choice([0, 0x10, 0x11, 0x07, 0x17, 0x03, rng.randrange(32)])
         st['machine'] = '128K'
